@@ -13,6 +13,7 @@ import (
 	"crypto/elliptic"
 	crand "crypto/rand"
 	"encoding/base64"
+	"encoding/json"
 	"errors"
 	"fmt"
 	"math/rand"
@@ -23,6 +24,7 @@ import (
 	"strconv"
 	"strings"
 	"testing"
+	"time"
 
 	"github.com/lestrrat-go/jwx/v2/jwa"
 	"github.com/lestrrat-go/jwx/v2/jwt"
@@ -30,6 +32,7 @@ import (
 	"github.com/nuts-foundation/nuts-node/auth/oauth"
 	"github.com/nuts-foundation/nuts-node/crypto/dpop"
 	"github.com/nuts-foundation/nuts-node/storage"
+	"github.com/nuts-foundation/nuts-node/vcr/signature/proof"
 	"go.uber.org/mock/gomock"
 )
 
@@ -244,6 +247,7 @@ func TestVerifC05(t *testing.T) {
 		for _, s := range scns {
 			w.Replay(level, s)
 		}
+		c05ReplayWindows(w, tc.client, rp)
 		return
 	}
 	if cd := os.Getenv("VERIF_CORPUS"); cd != "" {
@@ -257,6 +261,7 @@ func TestVerifC05(t *testing.T) {
 			for _, s := range scns {
 				w.Replay(level, s)
 			}
+			c05ReplayWindows(w, tc.client, fn)
 		}
 	}
 
@@ -312,5 +317,75 @@ func TestVerifC05(t *testing.T) {
 			}
 		}
 	}
+	// nonce memory vs. the acceptance window of a JSON-LD presentation (created - skew .. expires + skew):
+	// the real validity check, the real proof.ValidAt and the real nonce check under clock control (miniredis)
+	validity, _ := strconv.Atoi(os.Getenv("VERIF_C05_VALIDITY"))
+	skew, _ := strconv.Atoi(os.Getenv("VERIF_C05_SKEW"))
+	if validity == 0 {
+		validity = 5
+	}
+	if skew == 0 {
+		skew = 5
+	}
+	window := validity + 2*skew
+	for _, first := range []int{0, 1 + rng.Intn(skew), skew} {
+		for _, replay := range []int{first + 1, first + 9, first + 10, first + 11, window - 1, window, window + 1, first + 1 + rng.Intn(window)} {
+			if replay <= first {
+				continue
+			}
+			c05Window(w, tc.client, validity, skew, first, replay)
+		}
+	}
 	t.Logf("C05 iam harness: %d runs, %d goroutine dumps", w.Runs, w.Dumps)
+}
+
+// c05Window: a JSON-LD presentation with the maximum validity, created `skew` seconds after the origin; it is presented at
+// origin+first and again at origin+replay.  Prints what the real code decides at both instants.
+func c05Window(w *storage.VerifC05Writer, base *Wrapper, validity, skew, first, replay int) {
+	origin := time.Date(2024, 1, 1, 0, 0, 0, 0, time.UTC)
+	created := origin.Add(time.Duration(skew) * time.Second)
+	expires := created.Add(time.Duration(validity) * time.Second)
+	nonce := fmt.Sprintf("w-%d-%d", first, replay)
+	raw := fmt.Sprintf(`{"@context":["https://www.w3.org/2018/credentials/v1"],"type":"VerifiablePresentation","proof":{"type":"JsonWebSignature2020","nonce":%q,"created":%q,"expires":%q,"proofPurpose":"authentication","verificationMethod":"did:web:example.com#1","jws":"x"}}`,
+		nonce, created.Format(time.RFC3339), expires.Format(time.RFC3339))
+	vp, err := vc.ParseVerifiablePresentation(raw)
+	if err != nil {
+		panic(err)
+	}
+	maxValidity := "ok"
+	if err := validateS2SPresentationMaxValidity(*vp); err != nil {
+		maxValidity = "refused"
+	}
+	opts := proof.ProofOptions{Created: created, Expires: &expires}
+	sk := time.Duration(skew) * time.Second
+	a1 := opts.ValidAt(origin.Add(time.Duration(first)*time.Second), sk)
+	a2 := opts.ValidAt(origin.Add(time.Duration(replay)*time.Second), sk)
+	b, err := storage.VerifC05RedisBackend(nil, nil)
+	if err != nil {
+		panic(err)
+	}
+	wr := *base
+	wr.storageEngine = c05Engine{Engine: base.storageEngine, db: b.DB}
+	table := map[string]string{"presentation nonce has already been used": "used"}
+	n1 := c05Outcome(wr.validateS2SPresentationNonce(*vp), table)
+	b.Advance(time.Duration(replay-first) * time.Second)
+	n2 := c05Outcome(wr.validateS2SPresentationNonce(*vp), table)
+	w.Raw(map[string]interface{}{"op": "window", "validity": validity, "skew": skew, "first": first, "replay": replay},
+		fmt.Sprintf("window maxvalidity=%s accept1=%v accept2=%v nonce1=%s nonce2=%s", maxValidity, a1, a2, n1, n2))
+}
+
+func c05ReplayWindows(w *storage.VerifC05Writer, base *Wrapper, path string) {
+	data, err := os.ReadFile(path)
+	if err != nil {
+		return
+	}
+	for _, line := range strings.Split(string(data), "\n") {
+		var op struct {
+			Op                             string
+			Validity, Skew, First, Replay int
+		}
+		if json.Unmarshal([]byte(line), &op) == nil && op.Op == "window" {
+			c05Window(w, base, op.Validity, op.Skew, op.First, op.Replay)
+		}
+	}
 }
